@@ -46,6 +46,7 @@ fn readers(a: &Args, o: &mut Obs) {
             let op = rd::gen_op(&mut r, rest, is_take);
             match &op {
                 ROp::Adv(k) | ROp::CopySlice(k) | ROp::CopyBytes(k) => rest = rest.saturating_sub(*k),
+                ROp::TryCopySlice(k) if *k <= rest => rest -= *k,
                 ROp::GetU8 => rest = rest.saturating_sub(1),
                 ROp::GetU32Le => rest = rest.saturating_sub(4),
                 _ => {}
@@ -73,7 +74,7 @@ fn readers(a: &Args, o: &mut Obs) {
 }
 
 fn small_ops(n: usize, is_take: bool) -> Vec<ROp> {
-    let mut v = vec![ROp::Chunk, ROp::Adv(0), ROp::Adv(1), ROp::Adv(n / 2), ROp::Adv(n), ROp::Adv(n + 1), ROp::Vect(0), ROp::Vect(1), ROp::Vect(2), ROp::Vect(17), ROp::CopySlice(n / 2 + 1), ROp::CopySlice(n), ROp::CopyBytes(1), ROp::CopyBytes(n), ROp::CopyBytes(n + 1), ROp::GetU8, ROp::GetU32Le];
+    let mut v = vec![ROp::TryCopySlice(n / 2), ROp::TryCopySlice(n + 1), ROp::Chunk, ROp::Adv(0), ROp::Adv(1), ROp::Adv(n / 2), ROp::Adv(n), ROp::Adv(n + 1), ROp::Vect(0), ROp::Vect(1), ROp::Vect(2), ROp::Vect(17), ROp::CopySlice(n / 2 + 1), ROp::CopySlice(n), ROp::CopyBytes(1), ROp::CopyBytes(n), ROp::CopyBytes(n + 1), ROp::GetU8, ROp::GetU32Le];
     if is_take {
         v.push(ROp::SetLimit(1));
         v.push(ROp::SetLimit(n + 2));
@@ -118,6 +119,7 @@ fn frag(a: &Args, o: &mut Obs) {
                     for (i, op1) in ops1.iter().enumerate() {
                         let used = match op1 {
                             ROp::Adv(k) | ROp::CopySlice(k) | ROp::CopyBytes(k) => *k,
+                            ROp::TryCopySlice(k) if *k <= m => *k,
                             ROp::GetU8 => 1,
                             ROp::GetU32Le => 4,
                             _ => 0,
@@ -162,6 +164,7 @@ fn implementors(bytes: &[u8], cut1: usize, cut2: Option<usize>, extra_tail: &[u8
         // an io::Cursor positioned strictly beyond its data holds nothing
         extra.push(("CursorPast", Spec::Cursor(5, vec![0xAA; 2])));
         extra.push(("CursorPastEmpty", Spec::Cursor(1, Vec::new())));
+        extra.push(("CursorMax", Spec::Cursor(usize::MAX, vec![0xAA; 2])));
     }
     let mut v = vec![
         ("slice", Spec::Slice(all.clone())),
